@@ -33,22 +33,22 @@ StateOf(st, s) ==
   LET img == st.img
       dpart == [dpool |-> [cp |-> img.cp, e |-> img.pool], dsum |-> img.sum,
                 ustreams |-> SeqToFun(img.streams, "name", "data"), ptype |-> img.ptype]
-      cells == SeqToFun(img.tables, "name", "cells")
+      cells == LET pres == SelectSeq(img.tables, LAMBDA x : x.present) IN SeqToFun(pres, "name", "cells")
   IN IF st.open
      THEN LET sc == SeqToFun(st.api.tables, "name", "cols") IN
           [schemas |-> sc,
-           tstream |-> [t \in DOMAIN sc |-> IF t \in DOMAIN cells THEN cells[t] ELSE <<>>],
+           tstream |-> [t \in DOMAIN sc \cap DOMAIN cells |-> cells[t]],
            pool |-> st.pool, cp |-> st.api.cp, summary |-> st.api.summary, dirty |-> st.dirty,
            dpool |-> dpart.dpool, dsum |-> dpart.dsum, ustreams |-> dpart.ustreams,
            sess |-> "open", ptype |-> dpart.ptype]
      ELSE IF DOMAIN s.schemas = {}      \* a run that starts on a closed package: memory = what the bytes hold
      THEN LET sc == DecodeSchemas(cells, img.pool) IN
-          [schemas |-> sc, tstream |-> [t \in DOMAIN sc |-> IF t \in DOMAIN cells THEN cells[t] ELSE <<>>],
+          [schemas |-> sc, tstream |-> [t \in DOMAIN sc \cap DOMAIN cells |-> cells[t]],
            pool |-> img.pool, cp |-> img.cp, summary |-> img.sum, dirty |-> Off,
            dpool |-> dpart.dpool, dsum |-> dpart.dsum, ustreams |-> dpart.ustreams,
            sess |-> "closed", ptype |-> dpart.ptype]
      ELSE [schemas |-> s.schemas,
-           tstream |-> [t \in DOMAIN s.schemas |-> IF t \in DOMAIN cells THEN cells[t] ELSE <<>>],
+           tstream |-> [t \in DOMAIN s.schemas \cap DOMAIN cells |-> cells[t]],
            pool |-> s.pool, cp |-> s.cp, summary |-> s.summary, dirty |-> Off,
            dpool |-> dpart.dpool, dsum |-> dpart.dsum, ustreams |-> dpart.ustreams,
            sess |-> "closed", ptype |-> dpart.ptype]
@@ -77,7 +77,7 @@ FreshPkg(s1) ==   \* what Package::create leaves
 Bind(s1) ==
   /\ schemas' = s1.schemas /\ tstream' = s1.tstream /\ pool' = s1.pool /\ cp' = s1.cp
   /\ summary' = s1.summary /\ dirty' = s1.dirty /\ dpool' = s1.dpool /\ dsum' = s1.dsum
-  /\ ustreams' = s1.ustreams /\ sess' = s1.sess /\ ptype' = s1.ptype
+  /\ ustreams' = s1.ustreams /\ sess' = s1.sess /\ ptype' = s1.ptype /\ ro' = FALSE
 
 \* The invariants of Msi.tla, evaluated on an observed state; the names that fail.
 InvNames == {"FlagsSane", "CleanIsDurable", "Accounting", "KeysOK", "CellsOK", "CatalogOK", "Limits"}
@@ -116,7 +116,7 @@ TraceInit ==
   /\ LET e == Rec[1] s1 == StateOf(e.st, [schemas |-> << >>]) IN
        /\ schemas = s1.schemas /\ tstream = s1.tstream /\ pool = s1.pool /\ cp = s1.cp
        /\ summary = s1.summary /\ dirty = s1.dirty /\ dpool = s1.dpool /\ dsum = s1.dsum
-       /\ ustreams = s1.ustreams /\ sess = s1.sess /\ ptype = s1.ptype
+       /\ ustreams = s1.ustreams /\ sess = s1.sess /\ ptype = s1.ptype /\ ro = FALSE
        /\ hist = [path |-> <<>>, last |-> [op |-> e.op, args |-> e.args, res |-> e.res]]
        /\ Judge(e, s1, s1, TRUE)
 
